@@ -271,7 +271,9 @@ func (r *cpRun) do(op cpOp) {
 		v := r.newVal(op.W)
 		r.noteWrite(v)
 		wrote := false
+		sawOld, sawFound := 0, false
 		c.Compute(k, func(old int, found bool) (int, otter.ComputeOp) {
+			sawOld, sawFound = old, found
 			if found {
 				r.found.Add(1)
 			}
@@ -286,6 +288,12 @@ func (r *cpRun) do(op cpOp) {
 		})
 		r.lookups.Add(1)
 		if wrote {
+			if sawFound {
+				// the function saw the value it replaces (no other write takes effect in between): a link of the install chain
+				r.mu.Lock()
+				r.res.Replaced[v] = sawOld
+				r.mu.Unlock()
+			}
 			r.installed(k, v)
 		}
 	case "invalidate":
@@ -551,6 +559,12 @@ func cpConservation(c cpCase, res *cpResult) error {
 	for nv, ov := range res.Replaced {
 		pn, okn := pos[nv]
 		po, oko := pos[ov]
+		if !oko {
+			return fmt.Errorf("key %d: value %d was replaced by value %d (the replacing call saw it as the live value), but OnAtomicDeletion never reported it", res.Installed[nv], ov, nv)
+		}
+		if a := res.Atomic[po]; a.Cause != otter.CauseReplacement && !(a.Cause == otter.CauseExpiration && c.Expiry != 0) {
+			return fmt.Errorf("key %d: value %d was replaced by value %d (the replacing call saw it as the live value), but OnAtomicDeletion reported it with cause %s", res.Installed[nv], ov, nv, a.Cause)
+		}
 		if okn && !oko {
 			return fmt.Errorf("value %d (key %d) replaced value %d and was itself reported as removed, but the replaced value was never reported", nv, res.Installed[nv], ov)
 		}
@@ -867,13 +881,13 @@ func TestC05_S4Bookkeeping(t *testing.T) {
 
 func TestC06_S3Events(t *testing.T) {
 	runCPProp(t, cpOracle{prop: "C06", test: "S3Events", s3: true, check: cpConservation,
-		rule:       "oracle at quiescence: no value reported twice to either handler, every atomic report matched by exactly one OnDeletion, values written == values present + values reported, present values never reported, reported values were written to that key, per key the atomic reports follow the install chain given by Set's return values, Overflow only in bounded caches and never for zero-weight values, Expiration only with an expiration policy; non-trivial = >= 2 removals reported",
+		rule:       "oracle at quiescence: no value reported twice to either handler, every atomic report matched by exactly one OnDeletion, values written == values present + values reported, present values never reported, reported values were written to that key, per key the atomic reports follow the install chain given by Set's return values and by the values Compute's function saw (a replaced value is always reported, with cause Replacement), Overflow only in bounded caches and never for zero-weight values, Expiration only with an expiration policy; non-trivial = >= 2 removals reported",
 		nontrivial: cpHasRemovals})
 }
 
 func TestC06_S4Events(t *testing.T) {
 	runCPProp(t, cpOracle{prop: "C06", test: "S4Events", storms: true, check: cpConservation,
-		rule:       "oracle at quiescence: no value reported twice to either handler, every atomic report matched by exactly one OnDeletion, values written == values present + values reported, present values never reported, reported values were written to that key, per key the atomic reports follow the install chain given by Set's return values, Overflow only in bounded caches and never for zero-weight values, Expiration only with an expiration policy; non-trivial = >= 2 removals reported",
+		rule:       "oracle at quiescence: no value reported twice to either handler, every atomic report matched by exactly one OnDeletion, values written == values present + values reported, present values never reported, reported values were written to that key, per key the atomic reports follow the install chain given by Set's return values and by the values Compute's function saw (a replaced value is always reported, with cause Replacement), Overflow only in bounded caches and never for zero-weight values, Expiration only with an expiration policy; non-trivial = >= 2 removals reported",
 		nontrivial: cpHasRemovals})
 }
 
